@@ -1593,7 +1593,9 @@ pub fn c18(property: &str, seed: u64, index: u64) -> Plan {
 
 fn random_bcall(c: &Ch, j: u64, np_hint: usize) -> BCall {
     let addr = 1 + c.range(&[200, j], 0, 2) as u16;
-    match c.range(&[201, j], 0, 15) {
+    match c.range(&[201, j], 0, 17) {
+        16 => BCall::Timeout(*c.pick(&[215, j], &[300u64, 1000, 2000, 5000])),
+        17 => BCall::Notify(*c.pick(&[216, j], &[100u64, 500, 2500, 6000])),
         0 => BCall::NumPlayers(c.range(&[202, j], 0, 4) as usize),
         1..=3 => BCall::AddLocal(c.range(&[203, j], 0, 6) as usize),
         4..=6 => BCall::AddRemote(addr, c.range(&[204, j], 0, 6) as usize),
